@@ -127,7 +127,7 @@ static int run_case(void *arg){
     for(int r = 0; r < nw; r++) memcpy(T + r * d, c->T + which[r] * d, sizeof(double) * d);
     fit_predict(c->X, c->lab, n, d, T, nw, &f, 1, 2);
     emit_preds(c, &f, which, nw);
-    VRT_EMIT("{\"e\":\"EndPred\",\"n\":%d}", nw);
+    VRT_EMIT("{\"e\":\"EndPred\",\"n\":%d,\"rows\":%zu}", nw, f.pred->row);
     return 0;
   }
   fit_predict(c->X, c->lab, n, d, c->T, c->nt, &f, 1, -1);
@@ -141,7 +141,7 @@ static int run_case(void *arg){
     double v = m->pprob->data[k] * n; ps += m->pprob->data[k];
     VRT_EMIT("{\"e\":\"Prior\",\"k\":%zu,\"num\":%ld,\"den\":%d,\"err\":%ld}", k, clampl(v), n, vq12(v - (double)clampl(v)));
   }
-  VRT_EMIT("{\"e\":\"PriorSum\",\"num\":%ld,\"den\":%d,\"err\":%ld}", clampl(ps * n), n, vq12(ps * n - (double)clampl(ps * n)));
+  VRT_EMIT("{\"e\":\"PriorSum\",\"num\":%ld,\"den\":%d,\"err\":%ld,\"count\":%zu}", clampl(ps * n), n, vq12(ps * n - (double)clampl(ps * n)), m->pprob->size);
   for(size_t k = 0; k < m->mu->row; k++){
     if(c->exact){
       for(size_t j = 0; j < m->mu->col; j++){
@@ -169,6 +169,7 @@ static int run_case(void *arg){
   *g_stage = 6;
   emit_preds(c, &f, NULL, c->nt);
   /* stored score vs the documented discriminant of the stored model */
+  double kf0 = 0;
   { double w = 0; int K = (int)m->mu->row;
     for(int i = 0; i < c->nt; i++) for(int k = 0; k < K && k < (int)f.pr->col; k++){
       long double a = 0, b = 0;
@@ -177,9 +178,9 @@ static int run_case(void *arg){
       double e = fabs(fk - f.pr->data[i][k]) / fmax(1.0, fabs(fk)); if(!(e == e)) e = 1e300;
       if(e > w) w = e;
     }
-    int pinv, wi; double kf, ires; inv_diag(c->X, c->lab, n, d, m->inv_cov, &pinv, &kf, &ires, &wi);
+    int pinv, wi; double kf, ires; inv_diag(c->X, c->lab, n, d, m->inv_cov, &pinv, &kf, &ires, &wi); kf0 = kf;
     VRT_EMIT("{\"e\":\"Disc\",\"err\":%ld,\"pinv\":%d,\"kf\":%ld,\"invres\":%ld,\"cov\":\"%s\"}", vq12(w), pinv, vq_unit(kf, 1.0), vq12(ires), wi ? "within" : "total"); }
-  VRT_EMIT("{\"e\":\"EndPred\",\"n\":%d}", c->nt);
+  VRT_EMIT("{\"e\":\"EndPred\",\"n\":%d,\"rows\":%zu}", c->nt, f.pred->row);
   DelMatrix(&t);
   if(!c->exact){
     vrng R = { c->pairseed };
@@ -196,7 +197,7 @@ static int run_case(void *arg){
     fit_predict(X2, c->lab, n, d, T2, c->nt, &f2, 3, 3);
     double e = pair_err(f.pr, f.pred, f2.pr, f2.pred, &same);
     int pinv, wi; double kf, ires; inv_diag(X2, c->lab, n, d, f2.m->inv_cov, &pinv, &kf, &ires, &wi);
-    VRT_EMIT("{\"e\":\"Pair\",\"kind\":\"affine\",\"err\":%ld,\"same\":%d,\"cond\":%ld,\"scale\":%ld,\"pinv\":%d,\"kf\":%ld,\"invres\":%ld}", vq12(e), same, vq_unit(kap, 1e-3), vq_unit(g, 1e-3), pinv, vq_unit(kf, 1.0), vq12(ires));
+    VRT_EMIT("{\"e\":\"Pair\",\"kind\":\"affine\",\"err\":%ld,\"same\":%d,\"cond\":%ld,\"scale\":%ld,\"pinv\":%d,\"kf\":%ld,\"invres\":%ld}", vq12(e), same, vq_unit(kap, 1e-3), vq_unit(g, 1e-3), pinv, vq_unit(fmax(kf, kf0), 1.0), vq12(ires));
     fit_free(&f2);
     /* -- reordering of the training objects */
     int *perm = malloc(sizeof(int) * n), *lab3 = malloc(sizeof(int) * n);
@@ -206,7 +207,7 @@ static int run_case(void *arg){
     fitres f3;
     fit_predict(X2, lab3, n, d, c->T, c->nt, &f3, 4, 4);
     e = pair_err(f.pr, f.pred, f3.pr, f3.pred, &same);
-    VRT_EMIT("{\"e\":\"Pair\",\"kind\":\"perm\",\"err\":%ld,\"same\":%d,\"cond\":0,\"scale\":0}", vq12(e), same);
+    VRT_EMIT("{\"e\":\"Pair\",\"kind\":\"perm\",\"err\":%ld,\"same\":%d,\"cond\":0,\"scale\":0,\"kf\":%ld}", vq12(e), same, vq_unit(kf0, 1.0));
     fit_free(&f3);
     free(X2); free(T2); free(perm); free(lab3);
   }
